@@ -40,4 +40,5 @@ func init() {
 	alias("C20", "R8", "C06", "R1", "Block and BlockByHash tie the relayed block body to the verified header through Block.ValidateBasic: its content-hash checks must hold for every body, also an empty one")
 	alias("C05", "R14", "C18", "R5", "after a crash inside the state store's save the node must go on committing: the state record is written last, so a state on disk always has its validator and parameter records")
 	alias("C06", "R11", "C07", "R5", "a block built by a correct proposer passes validation only if the last commit it carries verifies: commit construction must agree with commit verification")
+	alias("C14", "R8", "C08", "R8", "the node bootstraps from exactly the light-verified state: the validator records written for H-1, H, H+1 are the verified sets of that state, not recomputed ones")
 }
